@@ -26,6 +26,7 @@ RULE = ("the same randomly generated query (providers: multi-variable join/disju
         "the results are compared pairwise (first, second, third evaluation) with each other and with the oracle. Non-trivial: the caching-enabled run "
         "took at least one cache hit (IndexedCache.check returned True) and the result is neither empty nor the whole "
         "product; distinct by structural hash.")
+RULE += " Size cases (every tier): the scale flavours of eqlmon/multi.gen_scale_case as further multi-variable providers (big joins, self-joins, triangle joins, 6-9 operands, 5-6 variables)."
 LEVEL_TEXT = ("Differential monitoring of two configurations of the real code (cache on / cache off) plus the oracle, with "
               "a cache monitor counting the hits actually taken: a run in which fewer than 10% of the cases took a hit is "
               "inconclusive, because the repository's own tests never disable caching and the comparison would be vacuous.")
